@@ -3,3 +3,4 @@ import MtailVerif.Props.C06
 #print axioms MtailVerif.C06.add_preserves_other_programs
 #print axioms MtailVerif.C06.refused_only_on_kind_conflict
 #print axioms MtailVerif.C06.line_effect_is_local
+#print axioms MtailVerif.C06.loader_skeletons
